@@ -719,7 +719,7 @@ def run(ctx):
     for c in curves:
         sh.append([(c, 2, 2, None, False)])
     for c in (("p256", "ed25519", "curve25519") if q else curves):
-        sh.append([(c, 3, 1 if q else 2, 4000 if q else 40000, False)])
+        sh.append([(c, 3, 1 if q else 2, 4000 if q else 90000, False)])
     for c in (("p256+ed25519", "p384+curve448") if q else ("p256+ed25519", "p384+curve448", "p521+p192", "ed448+curve25519", "p224+ed448")):
         sh.append([(c, 2, 2, None, False)])
     if not q:
